@@ -661,6 +661,10 @@ impl SetComprehension {
 
 impl Capture {
     fn evaluate(&self, exec: &mut ExecutionContext) -> Result<Value, ExecutionError> {
+        if self.quantifier == tree_sitter::CaptureQuantifier::Zero {
+            // not resolved by the checker, which does not visit attribute shorthands
+            return Err(ExecutionError::UndefinedCapture(format!("{}", self)));
+        }
         Ok(Value::from_nodes(
             exec.graph,
             exec.mat
